@@ -116,9 +116,21 @@ func newEndpoint(conn net.Conn, server bool) *endpoint {
 	return e
 }
 
+// stop shuts the endpoint down.  The muxer goes first: Protocol.Stop takes the
+// muxer's per-protocol receive lock, which the muxer's read loop holds while
+// it is blocked handing over a segment.  Bounded, so that a wedged
+// implementation cannot wedge the harness.
 func (e *endpoint) stop() {
-	e.P.Stop()
-	e.Mux.Stop()
+	done := make(chan struct{})
+	go func() {
+		e.Mux.Stop()
+		e.P.Stop()
+		close(done)
+	}()
+	select {
+	case <-done:
+	case <-time.After(5 * time.Second):
+	}
 }
 
 func (e *endpoint) pollErr() {
